@@ -20,7 +20,7 @@
 
    Limiter tokens of the per-client limiter and the inline/replay hand-off are compared
    differentially only; see props/C05/NOTES.md. *)
-From Sdns Require Import Common.Base Gen.C05 C05.Model C05.Proofs C05.Proofs_libfuel C05.Ladder C05.Proofs_ladder C05.Edns C05.Proofs_edns C05.Proofs_gen3 C05.Proofs_loops.
+From Sdns Require Import Common.Base Common.GoList Gen.C05 C05.Model C05.Proofs C05.Proofs_libfuel C05.Ladder C05.Proofs_ladder C05.Edns C05.Proofs_edns C05.Proofs_gen3 C05.Proofs_loops.
 Open Scope N_scope.
 
 (* the strict admission never accepts what the library rejects, and reads the same facts *)
@@ -165,7 +165,8 @@ Print Assumptions wire_opt_bytes_fill_reserve.
    falls through, at the offset the model computes *)
 Theorem parse_wire_name_loop_is_source : forall f k raw off,
   let r := go_Request_ParseWire_loop1 f k raw (Z.of_N off) in
-  fst r = name_loop_ctl (pw_name k raw off) /  (forall o, pw_name k raw off = Ok o -> snd r = (raw, Z.of_N o)).
+  fst r = name_loop_ctl (pw_name k raw off) /\
+  (forall o, pw_name k raw off = Ok o -> snd r = (raw, Z.of_N o)).
 Proof. exact gen_pw_name_loop. Qed.
 Print Assumptions parse_wire_name_loop_is_source.
 
